@@ -30,6 +30,11 @@ fn main() {
         std::process::exit(64);
     }
     let cmd = args[1].as_str();
+    if cmd == "lock-child" {
+        props::install_panic_hook();
+        props::c13::lock_child(&args[2]);
+        return;
+    }
     if cmd == "seed-corpus" {
         seed_corpus(&args[2]);
         return;
